@@ -55,7 +55,9 @@ AeadOpens(ch, adlen) ==
 
 \* DH: scalar classes and point classes
 DhScalars == {"random", "zero", "ones", "low3set", "high_set", "high_clear"}
-DhPoints  == {"random", "base", "loworder", "noncanonical"}
+\* "reduces_mod_p": u = p + j (2 <= j <= 18), an encoding RFC 7748 section 5 requires to be accepted and taken
+\* modulo p; "high_bit_masked": the most significant bit of u is ignored
+DhPoints  == {"random", "base", "loworder", "noncanonical", "reduces_mod_p", "high_bit_masked"}
 
 VARIABLES kind, c
 Init ==
